@@ -240,7 +240,7 @@ def judge_factor(t, case, T, Y, Yref, br, nb):
 
 # ---- class route ----------------------------------------------------------------------------------
 
-def judge_class(t, case, ssi, data, refs, l, br, n, nb, Fc_fun):
+def judge_class(t, case, ssi, data, refs, l, br, n, nb, Fc_fun, cells):
     from pyoma2.algorithms import SSIcov
     from pyoma2.setup import SingleSetup
 
@@ -260,7 +260,7 @@ def judge_class(t, case, ssi, data, refs, l, br, n, nb, Fc_fun):
         t.violation("class:no-variance-table", f"result.Fn_poles_cov is {None if got is None else np.shape(got)}, "
                     f"function route gives {np.shape(Fc_fun)}", case)
         return
-    fin = np.isfinite(got)
+    fin = np.isfinite(got) & cells          # cells the class kept (hard criteria switched off as far as possible) and (i) judged
     if not fin.any():
         t.outcomes["class:all-cells-masked:not-judged"] += 1
         return
@@ -297,11 +297,11 @@ def run_case(seed, c):
     else:
         nb = 3 if ncol == 1 else ncol
         data = record(seed, l, n, var)[:ndat_for(br)]
-        Y = data.T
-        Yref = Y[list(refs), :]
+        Y = data.T                                        # same memory layout as the algorithm class uses (a transposed view)
+        Yref = Y[list(refs), :] if r < l else Y
         t.evaluations += 1
         try:
-            H, Tfull = ssi.build_hank(Y.copy(), Yref.copy(), br, "cov_mm", calc_unc=True, nb=nb)
+            H, Tfull = ssi.build_hank(Y, Yref, br, "cov_mm", calc_unc=True, nb=nb)
         except Exception as e:
             t.violation(f"factor:raises:{type(e).__name__}", f"build_hank(calc_unc=True) raised {e!r}", case)
             return t
@@ -413,7 +413,7 @@ def run_case(seed, c):
 
     # (iv) the algorithm class on the same data
     if fam == "data" and ncol > 1:
-        judge_class(t, case, ssi, data, refs, l, br, n, ncol, Fc)
+        judge_class(t, case, ssi, data, refs, l, br, n, ncol, Fc, cells)
 
     if judged_any and (l, r, n) in ((2, 1, 4), (3, 2, 6), (3, 3, 8), (1, 1, 2)):
         t.sample({"case": case, "H_shape": list(H.shape), "orders_judged": orders, "min_sv_gap": gap,
